@@ -15,7 +15,7 @@ Qed.
 Lemma put_accepts_valid a c :
   put_accepts a c = true -> valid_utf8 a = true /\ valid_utf8 (c_refresh c) = true /\ valid_utf8 (c_access c) = true.
 Proof.
-  unfold put_accepts. intro H. apply andb_true_iff in H as [H A]. apply andb_true_iff in H as [H R].
+  rewrite put_accepts_spec. intro H. apply andb_true_iff in H as [H A]. apply andb_true_iff in H as [H R].
   apply andb_true_iff in H as [_ K]. auto.
 Qed.
 
